@@ -64,10 +64,14 @@ type spec struct {
 	// self link <a id=s href="#s">: "" (present), "none" (absent: the skeleton then defines no id of its
 	// own), "no-id" (<a href="#s"> only: dangling unless another element has id s), "no-href" (<a id=s> only)
 	selfLink string
-	zoom     float32
-	base     string
-	tags     map[string]bool
-	picks    []string
+	// text of the paint element instead of its two letters ("" = default); fonts2: the document is rendered
+	// with the two-font configuration (Ahem + a fallback font of wider coverage, see fonts.go)
+	paintText string
+	fonts2    bool
+	zoom      float32
+	base      string
+	tags      map[string]bool
+	picks     []string
 }
 
 func (s *spec) tag(ts ...string) {
@@ -300,6 +304,9 @@ func (s *spec) build() (string, *model) {
 		}
 		if e.inner != "" {
 			inner = e.inner
+		}
+		if i == s.paint && s.paintText != "" {
+			inner = s.paintText
 		}
 		if e.kind == "empty" {
 			inner, label, txt = "", "", ""
@@ -867,6 +874,8 @@ func slotsG() []slot {
 		{name: "self:no-id", tags: []string{"no-self-link", "self-link-dangling"}, core: true, apply: func(s *spec) { s.selfLink = "no-id" }},
 		{name: "self:no-href", tags: []string{"no-self-link"}, apply: func(s *spec) { s.selfLink = "no-href" }},
 	}})
+	// the text of the paint element needs two fonts (font fallback inside one line)
+	out = append(out, slotPaintText())
 	return out
 }
 
